@@ -242,6 +242,31 @@ def case_unit(n, case):
     return corpus.Unit("X%s" % g, src, [], serde=False, meta={"root_ty": root_ty, "case": case})
 
 
+def static_closed(items, metatag="c03s2"):
+    """items: list of (decl text, names in dependencies()) -> indices (0-based) of the items whose declaration is not
+    closed by exactly those names (judged by TLC: FreeNames of TsTypes.tla through Trace_Imports.tla on a synthetic tree)"""
+    srecs, idx = [], []
+    for k, (decl, deps) in enumerate(items):
+        try:
+            d_ = tsparse.parse_decl(decl)
+        except tsparse.TsSyntaxError:
+            continue
+        own = d_["name"]
+        srecs.append({"esm": False, "files": [
+            {"path": [list("Root.ts")], "imports": [{"names": [n], "spec": list("./dep_" + n)} for n in deps if n != own],
+             "decls": [{"name": own, "params": [{"name": p["name"], "default": tsparse.strip(p["default"]) if p["default"] else {"k": "none"}} for p in d_["params"]],
+                        "body": tsparse.strip(d_["body"])}]}] +
+            [{"path": [list("dep_%s.ts" % n)], "imports": [], "decls": [{"name": n, "params": [], "body": {"k": "kw", "v": "null"}}]} for n in deps if n != own]})
+        idx.append(k)
+    if not srecs:
+        return [], 0, 0
+    tp = os.path.join(vlib.TMP, "imports-static2.ndjson")
+    vlib.write_ndjson(tp, srecs)
+    a = vlib.run_tlc("Trace_Imports", "Trace_Imports.cfg", workers=8, env={"VERIF_TRACE": tp}, timeout=1800, tags=("BAD",), metatag=metatag)
+    vlib.tlc_must_succeed(a, "Trace_Imports static")
+    return sorted({idx[b["rec"] - 1] for b in a.payloads("BAD")}), a.distinct, a.generated
+
+
 def snapshot(root):
     out = {}
     for dp, dn, fn in os.walk(root):
